@@ -218,6 +218,17 @@ def run_case(case, R):
             p0 = np.array([float(cf0.put(k, T)) for k in kk])
             want_c = df * np.maximum(F - np.array(kk), 0.0)
             want_p = df * np.maximum(np.array(kk) - F, 0.0)
+            # the same strikes as one vector, and the digital on a scalar strike
+            try:
+                cv_ = np.asarray(cf0.call(np.array(kk), T), dtype=float).reshape(-1)
+                pv_ = np.asarray(cf0.put(np.array(kk), T), dtype=float).reshape(-1)
+                dg_ = float(np.asarray(cf0.digital(kk[0], T), dtype=float).reshape(-1)[0])
+                dgv = np.asarray(cf0.digital(np.array(kk), T), dtype=float).reshape(-1)
+                judge("bs-closed-form-without-volatility-vector-vs-scalar-strikes", max(np.max(np.abs(cv_ - c0)), np.max(np.abs(pv_ - p0)), abs(dg_ - dgv[0]) * S) / S, "parity",
+                      f"closed form with sigma = {sig0}: vector and scalar strikes give different prices", "closed_form_without_volatility")
+            except Exception as exc:  # noqa: BLE001
+                R.violation("BS-closed-form-without-volatility-raises", f"{label}: closed form with sigma = {sig0} on vector strikes (call, put) / a scalar strike (digital) "
+                            f"raises {type(exc).__name__}: {exc}", wit)
             judge("bs-closed-form-without-volatility", max(np.max(np.abs(c0 - want_c)), np.max(np.abs(p0 - want_p))) / S, "parity",
                   f"closed form with sigma = {sig0} differs from the price of the deterministic stock df (F - K)^+", "closed_form_without_volatility")
     # the interest and dividend rates assigned after construction (the models expose them as validated attributes): prices of a model
